@@ -374,6 +374,19 @@ let () = reg "tgtread" (fun args ->
        hex_of_ints (List.map (fun n -> int_of_string (decimal_of_n n)) (write_targets ts)))
   | _ -> "BAD")
 
+(* dtgtread HEX -> "OK kind:value,... | HEXREST | HEX of write_dtargets" (kind D / L / S) or "ERR" *)
+let () = reg "dtgtread" (fun args ->
+  match args with
+  | [h] ->
+    let bytes = List.map n_of_int (ints_of_hex h) in
+    (match read_dtargets (nat_of_int (List.length bytes + 2)) bytes with
+     | DErr -> "ERR"
+     | DOk (ts, rest) ->
+       "OK " ^ Stdlib.String.concat "," (List.map (function DDet n -> "D" ^ decimal_of_n n | DObs n -> "L" ^ decimal_of_n n | DSep -> "^") ts) ^ " | " ^
+       hex_of_ints (List.map (fun n -> int_of_string (decimal_of_n n)) rest) ^ " | " ^
+       hex_of_ints (List.map (fun n -> int_of_string (decimal_of_n n)) (write_dtargets ts)))
+  | _ -> "BAD")
+
 let () =
   (try
      while true do
